@@ -73,11 +73,20 @@ def plan(seed, subbatch):
     pre, ops, fired, rows = planlib.stream_and_schedule(seed, subbatch, n, base_s, start, faults, burst, 0.0, extras,
                                                         encodings=encs, preload=cfg.choice((0, 0, 1, 3)))
     fired["observer_calls"] += n_probe
+    fx = sub_rng(seed, "features")
+    if fx.random() < 0.15:
+        # a candlestick type: converted in place, raw values kept aside - none of which a read may disturb
+        if kind == "hexital":
+            hexcfg["candlestick_type"] = "HA"
+        else:
+            members[0]["common"]["candlestick_type"] = "HA"
     # timezone-aware streams (fixed offset); with offset 0 the ISO encodings alternate "+00:00" and "Z"
     offset = sub_rng(seed, "aware").choice((None, None, None, 0, 0, 60, -210))
     return {"format": 1, "property": ID, "seed": seed, "subbatch": subbatch,
             "config": {"kind": kind, "members": members, "hexital": hexcfg, "base_s": base_s,
                        "utc_offset_min": offset,
+                       # read-only looks at the caller's own Candle objects BEFORE they are handed to append
+                       "candle_pre_read": sub_rng(seed, "candle-pre-read").random() < 0.2,
                        "pre_probe": (sub_rng(seed, "pre-probe").sample(["str", "repr", "settings", "name", "has_reading", "as_list",
                                                                          "reading_count"], 2)
                                      if sub_rng(seed, "pre-probe-p").random() < 0.25 else [])},
@@ -129,6 +138,13 @@ def _probe(m, op):
         return None
     except Exception as exc:  # noqa: BLE001 - an accessor may refuse (e.g. empty list); it must still not mutate
         return type(exc).__name__
+
+
+def raw_core(c):
+    """(ts, o, h, l, c, v) of a candle with any candlestick conversion undone (raw values live in clean_values)."""
+    cv = c.clean_values or {}
+    t = candle_core(c)
+    return (t[0],) + tuple(cv.get(k, getattr(c, k)) for k in ("open", "high", "low", "close", "volume"))
 
 
 def _states(m):
@@ -194,6 +210,12 @@ def execute(trace, ctx=None):
                     raise Violation("append-rejects-encoding", "encoding", f"{enc}:{e.site}",
                                     {"error": repr(e.exc), "enc": enc})
                 payload = encode(rows, enc) if rows else []
+                if cfg.get("candle_pre_read") and enc in ("candle", "candles") and rows:
+                    for cobj in (payload if isinstance(payload, list) else [payload]):
+                        for attr in ("high_low", "realbody", "positive", "negative", "shadow_upper", "shadow_lower"):
+                            getattr(cobj, attr, None)
+                        repr(cobj)
+                    run.stats["reach:candle_objects_read_before_append"] += 1
                 keep = copy.deepcopy(payload)
                 subj.delivered.extend(rows)
                 try:
@@ -267,8 +289,9 @@ def execute(trace, ctx=None):
                 # "delivers the same candle to every timeframe of a Hexital": every candle manager the
                 # Hexital lists must hold exactly the reference resampling of everything delivered
                 if subj.kind == "hexital":
+                    converted = bool((cfg.get("hexital") or {}).get("candlestick_type"))
                     for name, mgr in subj.subject._candles.items():
-                        got = [c[:6] for c in a[name]]
+                        got = [raw_core(c) for c in mgr.candles] if converted else [c[:6] for c in a[name]]
                         if mgr.timeframe:
                             want = [tuple(r) for r in refmodels.resample(subj.delivered, tf_seconds(mgr.timeframe))]
                         else:
@@ -282,7 +305,7 @@ def execute(trace, ctx=None):
                     level = (cfg.get("hexital") or {}).get("timeframe")
                     for sl in subj.live_slots():
                         eff = sl.spec["common"].get("timeframe") or level
-                        got = [candle_core(c) for c in sl.ind.candles]
+                        got = [raw_core(c) if converted else candle_core(c) for c in sl.ind.candles]
                         want = ([tuple(r) for r in refmodels.resample(subj.delivered, tf_seconds(eff))] if eff
                                 else [tuple(r) for r in subj.delivered])
                         if got != want:
